@@ -164,3 +164,9 @@ def main(tier: str, seed: int) -> int:
         extra_tasks=tasks,
     )
     return rep.finish()
+
+
+def replay(doc: Dict[str, Any]) -> int:
+    from mc.graphprops import replay as _r
+
+    return _r(PID, doc)
